@@ -37,6 +37,8 @@ pub const ENTRIES: &[&str] = &[
 	"foreign_rpc_coinbase",
 	"owner_rpc_slate",
 	"owner_rpc_misc",
+	"owner_rpc_envelope",
+	"owner_rpc_token",
 	"slatepack_file",
 	"enc_malformed",
 ];
@@ -427,7 +429,30 @@ impl Prop for C09 {
 				}
 				let sv: Value = serde_json::from_str(&crate::ops::slate_to_json(&slate)).unwrap_or(Value::Null);
 				let good = match entry.as_str() {
-					"foreign_rpc_receive" => json!({"jsonrpc": "2.0", "method": "receive_tx", "id": 1, "params": [sv, null, null]}),
+					"foreign_rpc_receive" => {
+						// the two optional parameters are untrusted text too: an account name,
+						// and an address the reply should be sent back to (never one that
+						// could be reached: the simulator has no Tor)
+						let mut r = SimRng::new(seed ^ 0x7e11);
+						let dest = match r.below(6) {
+							0 => json!("default"),
+							1 => json!("no such account"),
+							2 => json!(""),
+							_ => Value::Null,
+						};
+						let r_addr = match r.below(8) {
+							0 => json!(""),
+							1 => json!("abc"),
+							2 => json!("http://127.0.0.1:1"),
+							3 => json!("grin1\u{00fc}"),
+							4 => owner
+								.get_slatepack_address(mask.as_ref(), 0)
+								.map(|a| json!(format!("{}", a)))
+								.unwrap_or(Value::Null),
+							_ => Value::Null,
+						};
+						json!({"jsonrpc": "2.0", "method": "receive_tx", "id": 1, "params": [sv, dest, r_addr]})
+					}
 					"foreign_rpc_finalize" => json!({"jsonrpc": "2.0", "method": "finalize_tx", "id": 1, "params": [sv]}),
 					_ => json!({"jsonrpc": "2.0", "method": "build_coinbase", "id": 1, "params": {"block_fees": {"fees": 0, "height": 3, "key_id": null}}}),
 				}
@@ -491,6 +516,74 @@ impl Prop for C09 {
 					None => return OpRes::Skipped("cannot build".into()),
 				};
 				let _ = envelope; // (helper shared with C13)
+				let (status, reply) = self.rpc.as_ref().unwrap().2.post_owner(env.as_bytes());
+				ok(format!("{}:{}", status, reply.len()))
+			}
+			"owner_rpc_envelope" | "owner_rpc_token" => {
+				// the envelope of an encrypted owner request is itself untrusted input (its
+				// nonce and body are decoded before anything is authenticated), and so is the
+				// token field of an authenticated request
+				if !self.rpc_for(ex, w) {
+					return OpRes::Skipped("no endpoint".into());
+				}
+				let key = match self.owner_key(seed) {
+					Some(k) => k,
+					None => return OpRes::Skipped("no session key".into()),
+				};
+				let mut r = SimRng::new(seed ^ 0xe77);
+				let weird: Vec<Value> = vec![
+					json!(""),
+					json!("a"),
+					json!("abc"),
+					json!("zz"),
+					json!("\u{00fc}\u{00fc}"),
+					json!("00\u{20ac}00"),
+					json!("ab".repeat(11)),
+					json!("ab".repeat(13)),
+					json!("ab".repeat(31)),
+					json!("ab".repeat(33)),
+					json!("ab".repeat(300)),
+					json!(12),
+					json!([1, 2, 3]),
+					json!({"a": 1}),
+					Value::Null,
+				];
+				let env = if entry == "owner_rpc_token" {
+					let tok = r.pick(&weird).clone();
+					let inner = match r.below(3) {
+						0 => json!({"jsonrpc": "2.0", "method": "accounts", "params": {"token": tok}, "id": 1}),
+						1 => json!({"jsonrpc": "2.0", "method": "retrieve_summary_info", "params": {"token": tok, "refresh_from_node": false, "minimum_confirmations": 1}, "id": 1}),
+						_ => json!({"jsonrpc": "2.0", "method": "get_slatepack_address", "params": {"token": tok, "derivation_index": 0}, "id": 1}),
+					};
+					match grin_wallet_api::EncryptedRequest::from_json(&grin_wallet_api::JsonId::IntId(1), &inner, &key)
+						.ok()
+						.and_then(|e| e.as_json_str().ok())
+					{
+						Some(e) => e,
+						None => return OpRes::Skipped("cannot build".into()),
+					}
+				} else {
+					let inner = json!({"jsonrpc": "2.0", "method": "accounts", "params": {"token": null}, "id": 1});
+					let e = match grin_wallet_api::EncryptedRequest::from_json(&grin_wallet_api::JsonId::IntId(1), &inner, &key)
+						.ok()
+						.and_then(|e| e.as_json_str().ok())
+					{
+						Some(e) => e,
+						None => return OpRes::Skipped("cannot build".into()),
+					};
+					let mut v: Value = serde_json::from_str(&e).unwrap_or(Value::Null);
+					match r.below(4) {
+						0 => v["params"]["nonce"] = r.pick(&weird).clone(),
+						1 => v["params"]["body_enc"] = r.pick(&weird).clone(),
+						2 => v["id"] = r.pick(&weird).clone(),
+						_ => {
+							let b = fault_bytes(e.as_bytes(), e.as_bytes(), &fault, seed);
+							let (status, reply) = self.rpc.as_ref().unwrap().2.post_owner(&b);
+							return ok(format!("{}:{}", status, reply.len()));
+						}
+					}
+					v.to_string()
+				};
 				let (status, reply) = self.rpc.as_ref().unwrap().2.post_owner(env.as_bytes());
 				ok(format!("{}:{}", status, reply.len()))
 			}
